@@ -12,6 +12,70 @@ NONE = ("none",)
 UNIT = ("unit",)
 
 
+class Scope:
+    """lexically scoped variables: a name is looked up and assigned in the innermost scope that defines it; bind() (let / pattern
+    bindings) always defines it in this scope, shadowing outer ones"""
+
+    def __init__(self, vars_=None, parent=None):
+        self.vars = vars_ if vars_ is not None else {}
+        self.parent = parent
+
+    def child(self):
+        return Scope({}, self)
+
+    def _find(self, k):
+        s_ = self
+        while s_ is not None:
+            if k in s_.vars:
+                return s_
+            s_ = s_.parent
+        return None
+
+    def __contains__(self, k):
+        return self._find(k) is not None
+
+    def __getitem__(self, k):
+        s_ = self._find(k)
+        if s_ is None:
+            raise KeyError(k)
+        return s_.vars[k]
+
+    def get(self, k, default=None):
+        s_ = self._find(k)
+        return s_.vars[k] if s_ is not None else default
+
+    def __setitem__(self, k, v):
+        s_ = self._find(k)
+        (s_ if s_ is not None else self).vars[k] = v
+
+    def bind(self, k, v):
+        self.vars[k] = v
+
+    def update(self, d):
+        for k, v in d.items():
+            self[k] = v
+
+    def items(self):
+        out = {}
+        s_ = self
+        while s_ is not None:
+            for k, v in s_.vars.items():
+                out.setdefault(k, v)
+            s_ = s_.parent
+        return out.items()
+
+
+def bind(env, k, v):
+    if isinstance(env, Scope):
+        env.bind(k, v)
+    else:
+        env[k] = v
+
+
+def child(env):
+    return env.child() if isinstance(env, Scope) else env
+
+
 class Return(Exception):
     def __init__(self, v):
         self.v = v
@@ -41,7 +105,7 @@ class SymEval:
 
     # ------------------------------------------------------------------ entry
     def run(self, f, args):
-        env = args          # the caller may inspect the environment afterwards (out-parameters)
+        env = args if isinstance(args, Scope) else Scope(args)      # the caller's dict holds the top-level names afterwards (out-parameters)
         self.note_ret(f)
         try:
             return self.block(f["body"], env)
@@ -62,7 +126,7 @@ class SymEval:
 
     # ------------------------------------------------------------------ statements
     def block(self, b, env):
-        env = dict(env) if False else env
+        env = child(env) if isinstance(env, Scope) else Scope(env)
         r = UNIT
         wbs = []
         for s in b[1]:
@@ -104,7 +168,7 @@ class SymEval:
             elif s[0] == "item":
                 it = s[1]
                 if isinstance(it, dict) and it.get("kind") in ("const", "static") and it.get("init") is not None:
-                    env[it["name"]] = self.ev(it["init"], env)
+                    bind(env, it["name"], self.ev(it["init"], env))
                 return r
             else:
                 self.fail("statement kind %s" % s[0])
@@ -331,7 +395,7 @@ class SymEval:
                     self.note_ret(fn)
                     try:
                         try:
-                            return self.block(fn["body"], dict(zip(ps, args)))
+                            return self.block(fn["body"], Scope(dict(zip(ps, args))))
                         except Return as r_:
                             return r_.v
                     finally:
@@ -345,13 +409,14 @@ class SymEval:
             c = e[1]
             if c[0] == "let":
                 v = self.ev(c[2], env)
-                m = self.match_pat(c[1], v, env)
+                inner = child(env)
+                m = self.match_pat(c[1], v, inner)
                 if m is None:
                     self.fail("undecided if-let", c)
                 if m:
-                    wb = self.writeback(c[1], c[2], env)
+                    wb = self.writeback(c[1], c[2], inner)
                     try:
-                        return self.ev(e[2], env)
+                        return self.ev(e[2], inner)
                     finally:
                         if wb:
                             wb()
@@ -365,27 +430,24 @@ class SymEval:
         if k == "match":
             v = self.ev(e[1], env)
             for pat, guard, body in e[2]:
-                saved = dict(env)
-                m = self.match_pat(pat, v, env)
+                outer = env
+                arm = child(outer)
+                m = self.match_pat(pat, v, arm)
                 if m is None:
                     self.fail("undecided match arm %s on %r" % (show(pat)[:40], v))
                 if m:
                     if guard is not None:
-                        g = self.ev(guard, env)
+                        g = self.ev(guard, arm)
                         if not isinstance(g, bool):
                             self.fail("undecided guard", guard)
                         if not g:
-                            env.clear()
-                            env.update(saved)
                             continue
-                    wb = self.writeback(pat, e[1], env)
+                    wb = self.writeback(pat, e[1], arm)
                     try:
-                        return self.ev(body, env)
+                        return self.ev(body, arm)
                     finally:
                         if wb:
                             wb()
-                env.clear()
-                env.update(saved)
             self.fail("no match arm applies", e)
         if k == "macro" and e[1] in ("panic", "unreachable", "todo", "unimplemented"):
             raise Panic(e[1])
@@ -405,7 +467,8 @@ class SymEval:
                     c = e[1]
                     if c[0] == "let":
                         v = self.ev(c[2], env)
-                        m = self.match_pat(c[1], v, env)
+                        loop_env = child(env)
+                        m = self.match_pat(c[1], v, loop_env)
                         if m is None:
                             self.fail("undecided while-let", c)
                         if not m:
@@ -417,7 +480,7 @@ class SymEval:
                         if not cv:
                             break
                 try:
-                    self.block(e[2] if k == "while" else e[1], env)
+                    self.block(e[2] if k == "while" else e[1], loop_env if (k == "while" and e[1][0] == "let") else env)
                 except Break:
                     break
                 except Continue:
@@ -442,10 +505,11 @@ class SymEval:
             if not (isinstance(it, tuple) and it[0] == "list"):
                 self.fail("for over a non-list %r" % (it,), e[2])
             for item in it[1]:
-                if self.match_pat(e[1], item, env) is not True:
+                it_env = child(env)
+                if self.match_pat(e[1], item, it_env) is not True:
                     self.fail("for pattern", e[1])
                 try:
-                    self.block(e[3], env)
+                    self.block(e[3], it_env)
                 except Break:
                     break
                 except Continue:
@@ -610,7 +674,7 @@ class SymEval:
             return r
         if not (isinstance(clo, tuple) and clo[0] == "closure"):
             self.fail("call of a non-closure %r" % (clo,))
-        env = clo[3]        # closures see (and may mutate) the environment they were created in
+        env = child(clo[3])        # closures see (and may mutate) the environment they were created in; parameters are local
         for p, a in zip(clo[1], args):
             if self.match_pat(p, a, env) is not True:
                 self.fail("closure parameter pattern")
@@ -717,6 +781,23 @@ class SymEval:
                 return ("list", [self.apply(args[0], [x]) for x in items])
             if m == "enumerate":
                 return ("list", [("tuple", [i, x]) for i, x in enumerate(items)])
+            if m in ("flat_map", "flatten"):
+                out = []
+                for x in items:
+                    y = self.apply(args[0], [x]) if m == "flat_map" else x
+                    if y == NONE:
+                        continue
+                    if isinstance(y, tuple) and y[0] == "some":
+                        out.append(y[1])
+                    elif isinstance(y, tuple) and y[0] == "list":
+                        out.extend(y[1])
+                    else:
+                        self.fail("%s over a non-iterable %r" % (m, y), e)
+                return ("list", out)
+            if m == "rev" and not args:
+                return ("list", list(reversed(items)))
+            if m == "count" and not args:
+                return len(items)
             if m in ("find", "position", "any", "all", "find_map", "filter") and len(args) == 1:
                 res = []
                 for i, x in enumerate(items):
@@ -847,8 +928,10 @@ class SymEval:
                 if not some:
                     return m == "is_none_or"
                 return self.apply(args[0], [recv[1]])
-            if m == "into_iter" or m == "iter_mut":
+            if m in ("into_iter", "iter_mut"):
                 return ("list", [recv[1]] if some else [])
+            if m == "flatten" and not args:
+                return recv[1] if some else NONE
             if m in ("unwrap", "expect"):
                 if not some:
                     raise Panic("%s on None" % m)
@@ -928,9 +1011,9 @@ class SymEval:
             if pat[4] is not None:
                 r = self.match_pat(pat[4], v, env)
                 if r:
-                    env[pat[1]] = v
+                    bind(env, pat[1], v)
                 return r
-            env[pat[1]] = v
+            bind(env, pat[1], v)
             return True
         if k == "p_ref":
             return self.match_pat(pat[2], v, env)
@@ -987,7 +1070,7 @@ class SymEval:
                     return False
                 pairs = list(zip(before, items[:len(before)])) + (list(zip(after, items[len(items) - len(after):])) if after else [])
                 if pats[ri][0] == "p_ident":
-                    env[pats[ri][1]] = ("list", items[len(before):len(items) - len(after)])
+                    bind(env, pats[ri][1], ("list", items[len(before):len(items) - len(after)]))
             res = True
             for p, x in pairs:
                 r = self.match_pat(p, x, env)
